@@ -141,6 +141,7 @@ class ExecKernel(Kernel):
         self.g = g
         for nm in ("notifies", "wall_reads", "waits"):
             ctx.store[(g.oid, nm)] = z3.IntVal(0)
+        ctx.store[(g.oid, "last_wall")] = z3.IntVal(-1)
         self.start = z3.Int("start_time")
         self.end = z3.Int("end_time")
         self.T0 = z3.Int("evaluation_time")
@@ -196,6 +197,7 @@ class ExecKernel(Kernel):
         w = ctx.fresh("wall")
         ctx.assume(z3.And(w >= 0, w <= MAX_DT))
         ctx.write(Loc((self.g.oid, "wall_reads")), ctx.store[(self.g.oid, "wall_reads")] + 1)
+        ctx.write(Loc((self.g.oid, "last_wall")), w)
         self.walls.append(w)
         return w
 
@@ -327,8 +329,9 @@ class AdvanceRealtime(ExecKernel):
 
     def inv(self, I, ctx):
         yield "lock-held", self.mutex.held(ctx)
-        yield "wall_now-is-the-last-clock-read", self.local(I, "wall_now") == self.walls[-1] if False else \
-            z3.BoolVal(True)
+        yield "wall_now-is-the-last-clock-read,re-read-after-every-wait[C17]", z3.And(
+            self.local(I, "wall_now") == ctx.store[(self.g.oid, "last_wall")],
+            ctx.store[(self.g.oid, "wall_reads")] == ctx.store[(self.g.oid, "waits")] + 1)
         yield "time-unchanged", ctx.store[(self.st.oid, "evaluation_time")] == self.T0
         yield "window-unchanged", z3.And(ctx.store[(self.st.oid, "end_time")] == self.end,
                                          ctx.store[(self.st.oid, "max_wait_slice")] == self.slice)
@@ -336,7 +339,7 @@ class AdvanceRealtime(ExecKernel):
 
     def frame(self, I, ctx):
         return [Loc((self.st.oid, "push_update_pending")), self.stop.loc("v"), Loc((self.g.oid, "wall_reads")),
-                Loc((self.g.oid, "waits"))]
+                Loc((self.g.oid, "waits")), Loc((self.g.oid, "last_wall"))]
 
     @property
     def loops(self):
@@ -360,6 +363,8 @@ class AdvanceRealtime(ExecKernel):
         ctx.oblige("ensures.never-ahead-of-the-wall-clock-except-the-forced-smallest-step[C17 never before the wall "
                    "clock has reached T]", z3.Implies(z3.Not(drained), ret <= floor), kind="post-normal")
         ctx.oblige("ensures.mutex-released", z3.Not(self.mutex.held(ctx)), kind="post-normal")
+        ctx.oblige("ensures.decision-uses-the-latest-clock-read[C17]", w == ctx.store[(self.g.oid, "last_wall")],
+                   kind="post-normal")
         woke = z3.Or(ctx.store[(self.st.oid, "push_update_pending")], ctx.store[(self.stop.oid, "v")])
         ctx.oblige("ensures.without-a-wake-request-the-wall-clock-reached-the-target[C17 never early]",
                    z3.Implies(z3.Not(woke), w >= tgt), kind="post-normal")
@@ -659,7 +664,7 @@ class RunStorage(ExecKernel):
         fr = [Loc((self.gf.oid, nm)) for nm in ("nst", "last_eval", "evals", "next_top", "pup_at_advance",
                                                   "loaded_since_advance", "fail_phase")]
         fr += [Loc((st.oid, "evaluation_time")), Loc((st.oid, "consecutive_immediate_cycles")), self.stop.loc("v"),
-               Loc((st.oid, "cycle_wall_start")), Loc((self.g.oid, "wall_reads"))]
+               Loc((st.oid, "cycle_wall_start")), Loc((self.g.oid, "wall_reads")), Loc((self.g.oid, "last_wall"))]
         fr += self.extra_frame(I, ctx)
         return fr
 
